@@ -385,6 +385,9 @@ class StorageFrontend:
         if not (fuzzy_for or fuzzy_for_options):
             return lineage == desired_lineage
         args = [fuzzy_for, fuzzy_for_options]
+        # Stored lineages went through json (tuples became lists): compare like with like
+        lineage = strax.utils.convert_tuple_to_list(lineage)
+        desired_lineage = strax.utils.convert_tuple_to_list(desired_lineage)
         return self._filter_lineage(lineage, *args) == self._filter_lineage(desired_lineage, *args)
 
     @staticmethod
